@@ -457,7 +457,7 @@ def _sequential(ctx: Ctx, with_model: bool) -> None:
     for base in bases:
         cc.run_batch(ctx, list(cc.sequential_scenarios()), "sequential-histories", base=base, with_model=with_model)
     rnd = []
-    for k in range(ctx.n(60, 1500)):
+    for k in range(ctx.n(60, 800)):
         # random sequential histories: every run finishes before the next one starts; occasionally one crashes
         ev: List[cc.Event] = []
         for i in range(ctx.rng.randint(2, 7)):
